@@ -28,12 +28,14 @@ class K:
 
     def __init__(self, c):
         self.c = c
-        self.FROM_ALL = c["HWLOC_DISTANCES_KIND_FROM_ALL"]
-        self.VALUE_ALL = c["HWLOC_DISTANCES_KIND_VALUE_ALL"]
-        self.KIND_ALL = c["HWLOC_DISTANCES_KIND_ALL"]
+        # the oracle builds its masks from the public enumerators of distances.h, not
+        # from the private *_ALL macros of distances.c (the model uses those)
+        self.FROM_ALL = c["HWLOC_DISTANCES_KIND_FROM_OS"] | c["HWLOC_DISTANCES_KIND_FROM_USER"]
+        self.VALUE_ALL = c["HWLOC_DISTANCES_KIND_VALUE_LATENCY"] | c["HWLOC_DISTANCES_KIND_VALUE_BANDWIDTH"] | c["HWLOC_DISTANCES_KIND_VALUE_HOPS"]
         self.HETERO = c["HWLOC_DISTANCES_KIND_HETEROGENEOUS_TYPES"]
+        self.KIND_ALL = self.FROM_ALL | self.VALUE_ALL | self.HETERO
         self.BW = c["HWLOC_DISTANCES_KIND_VALUE_BANDWIDTH"]
-        self.ADD_ALL = c["HWLOC_DISTANCES_ADD_FLAG_ALL"]
+        self.ADD_ALL = c["HWLOC_DISTANCES_ADD_FLAG_GROUP"] | c["HWLOC_DISTANCES_ADD_FLAG_GROUP_INACCURATE"]
         self.NONE = c["HWLOC_OBJ_TYPE_NONE_U"]
         self.PU = c["HWLOC_OBJ_PU"]
         self.NUMA = c["HWLOC_OBJ_NUMANODE"]
